@@ -271,8 +271,16 @@ Proof.
     by (destruct (ca_session_present c); reflexivity).
   rewrite decode_u8_as_enum_spec. unfold conv_connack311. rewrite Hc. cbn [obind].
   f_equal. f_equal.
-  destruct c as [sp rc [?|] [?|] [?|] [?|] [?|] [?|] [?|] [?|] [?|] [?|] [?|] [?|] [?|] [?|] [?|] [?|] [?|]];
-    cbn in Hleg; rewrite ?andb_false_r in Hleg; try discriminate Hleg.
+  cbn [legal_connack] in Hleg.
+  repeat (apply andb_true_iff in Hleg; destruct Hleg as [Hleg ?]).
+  destruct c as [sp rc f1 f2 f3 f4 f5 f6 f7 f8 f9 f10 f11 f12 f13 f14 f15 f16 f17]. cbn [ca_sei ca_receive_max ca_max_qos
+    ca_retain_avail ca_max_packet ca_assigned_id ca_tam ca_reason ca_up ca_wildcard ca_subid_avail ca_shared
+    ca_server_keep_alive ca_response_info ca_server_ref ca_auth_method ca_auth_data ca_session_present ca_rc] in *.
+  destruct f1; [discriminate|]. destruct f2; [discriminate|]. destruct f3; [discriminate|]. destruct f4; [discriminate|].
+  destruct f5; [discriminate|]. destruct f6; [discriminate|]. destruct f7; [discriminate|]. destruct f8; [discriminate|].
+  destruct f9; [discriminate|]. destruct f10; [discriminate|]. destruct f11; [discriminate|]. destruct f12; [discriminate|].
+  destruct f13; [discriminate|]. destruct f14; [discriminate|]. destruct f15; [discriminate|]. destruct f16; [discriminate|].
+  destruct f17; [discriminate|].
   destruct sp; reflexivity.
 Qed.
 
@@ -314,9 +322,12 @@ Proof.
   destruct (print_properties its) as [props|] eqn:Pp; [|discriminate].
   inversion Hb; subst fb body; clear Hb.
   destruct (print_properties_inv _ _ Pp) as [ps [l [Hps [Hl ->]]]].
-  unfold legal_publish in Hleg. repeat (apply andb_true_iff in Hleg; destruct Hleg as [Hleg ?]).
-  rename H into Hlists, H0 into Hpbytes, H1 into Hpay, H2 into Hpid. rename Hleg into Hqos.
-  apply andb_true_iff in Hlists. destruct Hlists as [Hup Hsub].
+  assert (Hq : spec_qos_ok (pub_qos q) = true /\ ((0 <? pub_qos q) || (pub_pid q =? 0)) = true /\
+               nonempty_list (pub_payload q) = true /\ nonempty_list (pub_up q) = true /\ nonempty_list (pub_subids q) = true).
+  { unfold legal_publish in Hleg.
+    repeat match goal with H : _ && _ = true |- _ => apply andb_true_iff in H; destruct H end.
+    repeat split; assumption. }
+  destruct Hq as [Hqos [Hpid [Hpay [Hup Hsub]]]].
   unfold publish_first_byte.
   destruct (publish_flags_spec (pub_dup q) (pub_retain q) (pub_qos q) Hqos) as [Hflags Hdiv].
   split; [|exact Hdiv].
@@ -325,7 +336,7 @@ Proof.
   cbn [pub_qos pub_set_topic pub_set_qos pub_with].
   set (pl := payload_bytes (pub_payload q)).
   set (target := pub_set_payload q None).
-  assert (Hprops : forall p2, pub_hdr p2 = pub_hdr target -> items_publish p2 = [] ->
+  assert (Hprops : forall p2, pub_hdr p2 = pub_hdr target -> items_publish p2 = [] -> pub_canon p2 ->
              (do (properties_length, b3) <- decode_vli_into_mutable (l ++ ps ++ pl);
               if len b3 <? properties_length then dfail else
               do properties_bytes <- slice_to 54 properties_length b3;
@@ -333,7 +344,7 @@ Proof.
               do p3 <- decode_properties publish_arm properties_bytes p2;
               Ok (Publish (if negb (len payload_bytes =? 0) then pub_set_payload p3 (Some payload_bytes) else p3)))
              = Ok (Publish q)).
-  { intros p2 Hh H0. rewrite (dec_vli_mut_w _ _ _ Hl). cbn [obind].
+  { intros p2 Hh H0 Hc2. rewrite (dec_vli_mut_w _ _ _ Hl). cbn [obind].
     rewrite len_app. replace (len ps + len pl <? len ps) with false by lia.
     unfold slice_to, slice_from. rewrite len_app. replace (len ps <=? len ps + len pl) with true by lia.
     rewrite take_all_app, drop_all_app. cbn [obind].
@@ -344,20 +355,15 @@ Proof.
     rewrite Hd. cbn [obind]. f_equal. f_equal.
     assert (E : s' = target).
     { apply pub_ext; auto.
-      - apply Hi. (* canonicity of p2: no lists yet *)
-        unfold pub_canon. unfold items_publish in H0.
-        repeat (apply app_eq_nil in H0; destruct H0 as [? H0]).
-        repeat match goal with H : _ ++ _ = [] |- _ => apply app_eq_nil in H; destruct H end.
-        destruct (pub_up p2) as [[|]|], (pub_subids p2) as [[|]|]; cbn in *; try discriminate; auto.
-      - unfold pub_canon, target. destruct q; cbn in *. auto. }
+      unfold pub_canon, target. destruct q; cbn in *. auto. }
     rewrite E. unfold target. apply payload_result; [exact Hpay | reflexivity]. }
   destruct (0 <? pub_qos q) eqn:Q.
   - replace (negb (pub_qos q =? 0)) with true by lia.
-    rewrite (dec_u16_w _ _ _ Wp). cbn [obind]. apply Hprops; [|reflexivity].
+    rewrite (dec_u16_w _ _ _ Wp). cbn [obind]. apply Hprops; [|reflexivity | split; reflexivity].
     unfold pub_hdr, target. destruct q; reflexivity.
   - replace (negb (pub_qos q =? 0)) with false by lia. inversion Wp; subst pidb. cbn [app obind].
-    apply Hprops; [|reflexivity].
-    unfold pub_hdr, target. rewrite Q in Hpid. cbn [orb] in Hpid. apply N.eqb_eq in Hpid.
+    apply Hprops; [|reflexivity | split; reflexivity].
+    unfold pub_hdr, target. try rewrite Q in Hpid. cbn [orb] in Hpid. apply N.eqb_eq in Hpid.
     destruct q; cbn in *. subst. reflexivity.
 Qed.
 
@@ -370,25 +376,34 @@ Proof.
   destruct (w_string (pub_topic q)) as [topicb|] eqn:Wt; [|discriminate].
   destruct (if 0 <? pub_qos q then w_u16 (pub_pid q) else Some []) as [pidb|] eqn:Wp; [|discriminate].
   inversion Hb; subst fb body; clear Hb.
-  unfold legal_publish in Hleg. repeat (apply andb_true_iff in Hleg; destruct Hleg as [Hleg ?]).
-  rename Hleg into Hqos.
+  assert (Hqos : spec_qos_ok (pub_qos q) = true).
+  { unfold legal_publish in Hleg.
+    repeat match goal with H : _ && _ = true |- _ => apply andb_true_iff in H; destruct H end. assumption. }
   unfold publish_first_byte.
   destruct (publish_flags_spec (pub_dup q) (pub_retain q) (pub_qos q) Hqos) as [Hflags Hdiv].
   split; [|exact Hdiv].
   unfold decode_publish_packet311. rewrite Hflags. cbn [obind app].
-  rewrite <- !app_assoc. rewrite (dec_string_w _ _ _ Wt). cbn [obind].
+  rewrite <- ?app_assoc. rewrite (dec_string_w _ _ _ Wt). cbn [obind].
   cbn [pub_qos pub_set_topic pub_set_qos pub_with].
-  destruct q as [pid topic qos dup retain pl [?|] [?|] [?|] [?|] [?|] [?|] [?|] [?|]];
-    cbn in *; rewrite ?andb_false_r in *; try discriminate.
+  unfold legal_publish in Hleg.
+  repeat match goal with H : _ && _ = true |- _ => apply andb_true_iff in H; destruct H end.
+  destruct q as [pid topic qos dup retain pl f1 f2 f3 f4 f5 f6 f7 f8].
+  cbn [pub_pid pub_topic pub_qos pub_dup pub_retain pub_payload pub_pfi pub_mei pub_alias pub_response_topic
+       pub_correlation pub_subids pub_content_type pub_up] in *.
+  destruct f1; [discriminate|]. destruct f2; [discriminate|]. destruct f3; [discriminate|]. destruct f4; [discriminate|].
+  destruct f5; [discriminate|]. destruct f6; [discriminate|]. destruct f7; [discriminate|]. destruct f8; [discriminate|].
+  cbn [pub_set_pid pub_set_topic pub_set_qos pub_set_retain pub_set_dup pub_set_payload pub_default pub_with
+       pub_pid pub_topic pub_qos pub_dup pub_retain pub_payload pub_pfi pub_mei pub_alias pub_response_topic
+       pub_correlation pub_subids pub_content_type pub_up payload_bytes].
   destruct (0 <? qos) eqn:Q.
   - replace (negb (qos =? 0)) with true by lia.
     rewrite (dec_u16_w _ _ _ Wp). cbn [obind].
-    destruct pl as [[|x pl]|]; cbn in *; try discriminate.
-    + rewrite len_cons. replace (1 + len pl =? 0) with false by lia. reflexivity.
+    destruct pl as [[|x pl]|]; try discriminate.
+    + cbn [payload_bytes]. rewrite len_cons. replace (1 + len pl =? 0) with false by lia. reflexivity.
     + reflexivity.
   - replace (negb (qos =? 0)) with false by lia. inversion Wp; subst pidb. cbn [app obind].
-    cbn [orb] in *. assert (pid = 0) by lia. subst pid.
-    destruct pl as [[|x pl]|]; cbn in *; try discriminate.
-    + rewrite len_cons. replace (1 + len pl =? 0) with false by lia. reflexivity.
+    assert (pid = 0) by lia. subst pid.
+    destruct pl as [[|x pl]|]; try discriminate.
+    + cbn [payload_bytes]. rewrite len_cons. replace (1 + len pl =? 0) with false by lia. reflexivity.
     + reflexivity.
 Qed.
